@@ -140,6 +140,39 @@ OrbitKey(lab, l) == MinOf({rencls[i] : i \in {j \in U : lab[j] = l}})
 NumClasses(lab, E) == Cardinality({OrbitKey(lab, l) : l \in RepLab(lab, E)})
 
 (***************************************************************************)
+(* Extraction and analyses: least fixpoints over the e-node structure of    *)
+(* the partition.  The e-nodes of class L are the signatures                *)
+(* (operator, child classes) of its member terms; cost(L) = min over its    *)
+(* e-nodes of CostOf(operator, costs of the child classes).  Cost functions *)
+(* are named; the Rust harness implements the same four (CostFunction /     *)
+(* Analysis) - they are slot independent, so only class structure matters.  *)
+(***************************************************************************)
+INF == 1000000
+RECURSIVE SumS(_)
+SumS(s) == IF s = << >> THEN 0 ELSE Head(s) + SumS(Tail(s))
+MaxS(s) == IF s = << >> THEN 0 ELSE MaxOf(Range(s))
+OpWeight(op) == CASE op = "f" -> 3 [] op = "f3" -> 3 [] op = "c" -> 4 [] op = "h" -> 2 [] op = "lam" -> 5
+                  [] op = "let" -> 2 [] op = "k" -> 2 [] op = "sum" -> 3 [] OTHER -> 1
+CostOf(name, op, cs) ==
+  CASE name = "astsize" -> 1 + SumS(cs)
+    [] name = "w2"      -> 1 + 2 * SumS(cs)
+    [] name = "opw"     -> OpWeight(op) + SumS(cs)
+    [] name = "depth"   -> 1 + MaxS(cs)
+Cap(x) == IF x > INF THEN INF ELSE x
+
+CostNames == <<"astsize", "w2", "opw", "depth">>
+
+RECURSIVE CostFix(_, _, _, _)
+CostFix(name, lab, mem, c) ==
+  LET c2 == TLCEval([L \in DOMAIN mem |->
+               MinOf({Cap(CostOf(name, us[i].op, [k \in DOMAIN chidx[i] |-> c[lab[chidx[i][k]]]])) : i \in mem[L]})])
+  IN IF c2 = c THEN c ELSE CostFix(name, lab, mem, c2)
+
+Members(lab) == TLCEval([L \in Range(lab) |-> {i \in U : lab[i] = L}])
+MinCost(name, lab) ==
+  LET mem == Members(lab) IN CostFix(name, lab, mem, [L \in DOMAIN mem |-> INF])
+
+(***************************************************************************)
 (* The state machine                                                        *)
 (***************************************************************************)
 Init == eqs = {} /\ part = lab0
